@@ -65,10 +65,11 @@ BUDGET = {"quick": {"worker_timeout": 900, "case_timeout": 120}, "thorough": {"w
 REQUIRED_COUNTERS = {
     "quick": {"implicit_backward_solves": 1500, "dense_backward_calls": 300, "degeneracy_maps_seen": 400, "bck_exactsolve": 800,
               "bck_cg": 500, "bck_bicgstab": 400, "davidson_calls": 400, "first_order_compared": 700, "second_order_compared": 500,
-              "fd_directions_compared": 1500, "svd_cases_compared": 350, "with_M_compared": 400},
+              "fd_directions_compared": 1500, "svd_cases_compared": 350, "with_M_compared": 400, "degenerate_level_at_zero": 150},
     "thorough": {"implicit_backward_solves": 15000, "dense_backward_calls": 3000, "degeneracy_maps_seen": 4000, "bck_exactsolve": 8000,
                  "bck_cg": 5000, "bck_bicgstab": 4000, "davidson_calls": 4000, "first_order_compared": 7000,
-                 "second_order_compared": 5000, "fd_directions_compared": 15000, "svd_cases_compared": 3500, "with_M_compared": 4000},
+                 "second_order_compared": 5000, "fd_directions_compared": 15000, "svd_cases_compared": 3500, "with_M_compared": 4000,
+                 "degenerate_level_at_zero": 1500},
 }
 
 METHODS = ["exacteig", "custom_exacteig", "davidson", "custom_exacteig", "davidson", "callable"]
@@ -121,6 +122,8 @@ def cases(seed, tier):
         d["mixed"] = rng.random() < 0.25        # some batch elements have the groups split (same loss, no degeneracy there)
         d["bck"] = rng.choice(BCK)
         d["loss"] = "spectral" if rng.random() < 0.15 else "group"
+        if i % 5 == 3:
+            d["zero_level"] = True       # the first repeated group sits exactly at zero
         out.append(d)
     # ---- directed: one repeated eigenvalue fills the whole space (A = e M), every path and backward solver
     k = 0
@@ -205,12 +208,22 @@ def _nb(batch):
     return k
 
 
-def _values(rng, mult, gap, lo=-3.0):
-    """ascending values, one per group, neighbouring groups separated by gap*(1..2.5), repeated by multiplicity"""
+zero_levels = [0]     # reach counter: prescribed spectra with a repeated group exactly at zero (reset per case)
+
+
+def _values(rng, mult, gap, lo=-3.0, zero=False):
+    """ascending values, one per group, neighbouring groups separated by gap*(1..2.5), repeated by multiplicity;
+    zero=True shifts the spectrum so that the first repeated group sits exactly at 0 (a degenerate level at zero: LAPACK returns
+    copies differing by ~1e-17 there, which only an absolute degeneracy threshold recognises)"""
     vals, v = [], lo + rng.uniform(0, 1.0)
+    shift = None
     for m in mult:
+        if zero and shift is None and m >= 2:
+            shift = v
         vals += [v] * m
         v += gap * rng.uniform(1.0, 2.5)
+    if shift is not None:
+        vals = [x - shift for x in vals]
     return vals
 
 
@@ -435,7 +448,9 @@ def _build_eig(desc, rng, tgen):
         m_b = mult
         if degen and desc.get("mixed") and b % 2 == 1:
             m_b = [1] * n          # this batch element has the same index groups, but separated values
-        vals = _values(rng, m_b, desc["gap"])
+        vals = _values(rng, m_b, desc["gap"], zero=bool(desc.get("zero_level")))
+        if desc.get("zero_level") and any(x == 0.0 for x in vals):
+            zero_levels[0] += 1
         s = torch.tensor(vals, dtype=torch.float64).to(dt)
         q = _unitary(n, dt, tgen)
         C = torch.matmul(q * s, _H(q))
@@ -498,10 +513,13 @@ def _eig_groups(desc, n, mult):
 def run_case(desc):
     import xitorch.linalg  # noqa
     obs = Obs(desc)
+    zero_levels[0] = 0
     if desc["group"] in ("eig", "eigdeg"):
         _run_eig(desc, obs)
     else:
         _run_svd(desc, obs)
+    if zero_levels[0] and not obs.skipped:
+        obs.count("degenerate_level_at_zero", zero_levels[0])
     return obs.result()
 
 
